@@ -1,4 +1,114 @@
+(* C12 — property theorems only.  Each is closed by [exact] of a lemma of Proofs.v and followed by
+   Print Assumptions.  They are statements about [step]/[run] of Model.v (the functions the correspondence
+   evaluates against the real QMI_Context / qmi.start) and hold for EVERY finite history of operations
+   with faults, in both modes and both variants unless a variant is named. *)
 Require Import QV.C12.Model QV.C12.Proofs.
-Theorem C12_placeholder : True.
-Proof. exact placeholder. Qed.
-Print Assumptions C12_placeholder.
+
+(* the invariant linking the three tables holds after every history: unique names, no reservation left,
+   handler map = names of the live objects, one worker thread per live object, live objects not released,
+   nothing released twice *)
+Theorem C12_reachable_inv : forall m v ops, Inv (fst (run (init m v) ops)).
+Proof. exact reachable_inv. Qed.
+Print Assumptions C12_reachable_inv.
+
+(* a name maps to at most one object ... *)
+Theorem C12_unique : forall w c, Inv w -> cur w = Some c ->
+  NoDup (names (objmap c)) /\
+  (forall n s1 s2, lookup n (objmap c) = Some s1 -> In (n, s2) (objmap c) -> s1 = s2).
+Proof. exact unique_names. Qed.
+Print Assumptions C12_unique.
+
+(* ... and a duplicate is refused without touching anything *)
+Theorem C12_duplicate_refused : forall c n k a b w,
+  valid n = true -> active c = true -> In n (names (objmap c)) -> make c n k a b w = Raise EDup w.
+Proof. exact duplicate_refused. Qed.
+Print Assumptions C12_duplicate_refused.
+
+(* after a failed constructor: the name is free, and the context (object map, handler map, threads: all of
+   it) is exactly what it was; nothing was released; only the id counter moved *)
+Theorem C12_rollback : forall w c n k b w',
+  Inv w -> cur w = Some c -> make c n k false b w = Raise ECtor w' ->
+  ~ In n (names (objmap c)) /\ cur w' = Some c /\ rel w' = rel w /\ hruns w' = hruns w /\
+  proxies w' = proxies w /\ nextoid w' = S (nextoid w).
+Proof. exact rollback_clean. Qed.
+Print Assumptions C12_rollback.
+
+(* after remove: name free, handler gone, thread ended, released exactly once (whether or not release raised) *)
+Theorem C12_remove : forall w c n w',
+  Inv w -> cur w = Some c -> remove c n w = Ret w' ->
+  exists o c', lookup n (objmap c) = Some (Live o) /\ cur w' = Some c' /\
+    ~ In n (names (objmap c')) /\ ~ In n (handlers c') /\ ~ In o (cthreads c') /\
+    rel w' = rel w ++ [o] /\ count_occ Nat.eq_dec (rel w') o = 1.
+Proof. exact remove_clean. Qed.
+Print Assumptions C12_remove.
+
+(* stop of an active context always succeeds, whatever stop handlers and release steps raise: every live
+   object is released exactly once, every stop handler ran, no thread / handler / socket / connection is left,
+   the context is inactive, start and a second stop are usage errors, calls through any proxy fail at once *)
+Theorem C12_stop_reclaims : forall w c,
+  Inv w -> cur w = Some c -> active c = true ->
+  exists w' c', ctx_stop c w = Ret w' /\ cur w' = Some c' /\
+    (forall o, In o (live_oids (objmap c)) -> count_occ Nat.eq_dec (rel w') o = 1) /\
+    rel w' = rel w ++ live_oids (objmap c) /\
+    hruns w' = hruns w ++ map fst (shs c) /\
+    objmap c' = [] /\ handlers c' = [] /\ cthreads c' = [] /\
+    router c' = false /\ tcp c' = false /\ udp c' = false /\ conn c' = false /\ active c' = false /\
+    (forall f, ctx_start c' f w' = Raise EUsage w') /\
+    ctx_stop c' w' = Raise EUsage w' /\
+    (forall i, call w' i = OSkip \/ call w' i = OExc EDelivery).
+Proof. exact stop_reclaims. Qed.
+Print Assumptions C12_stop_reclaims.
+
+(* a failed QMI_Context.start (TCP bind, UDP bind, port still held) in the demanded behaviour: everything
+   it built is reclaimed and a NEW context can be created and started *)
+Theorem C12_failed_start : forall w c f,
+  Inv w -> vr w = Fixed -> cur w = Some c -> active c = false -> used c = false -> router c = false ->
+  start_fails f w = true ->
+  exists w', ctx_start c f w = Raise EOSError w' /\
+    (exists c', cur w' = Some c' /\ objmap c' = [] /\ handlers c' = [] /\ cthreads c' = [] /\
+                router c' = false /\ tcp c' = false /\ udp c' = false /\ conn c' = false /\ active c' = false) /\
+    (forall o, In o (live_oids (objmap c)) -> count_occ Nat.eq_dec (rel w') o = 1) /\
+    exists w1 c1 w2, new_ctx w' = Ret w1 /\ cur w1 = Some c1 /\ ctx_start c1 FNone w1 = Ret w2.
+Proof. exact failed_start_direct. Qed.
+Print Assumptions C12_failed_start.
+
+(* the same at the qmi.start() level, demanded behaviour: after a failed qmi.start (any fault) the singleton
+   is reset, no context is held, no port is held, and the next qmi.start succeeds *)
+Theorem C12_failed_start_singleton_fixed : forall w f p e w',
+  Inv w -> md w = Single -> vr w = Fixed -> reg w = false -> qstart f p w = Raise e w' ->
+  (reg w' = false /\ cur w' = None /\ lport w' = false) /\
+  forall p', exists w'', qstart FNone p' w' = Ret w''.
+Proof. exact failed_start_singleton_fixed. Qed.
+Print Assumptions C12_failed_start_singleton_fixed.
+
+(* the tree as it is: qmi.start with the TCP port in use raises, and after that EVERY later qmi.start and
+   qmi.stop of EVERY continuation is a usage error: the process can never start a context again *)
+Theorem C12_failed_start_singleton_refuted :
+  exists o, snd (step (init Single Current) o) = OExc EOSError /\
+    forall ops,
+      Forall2 (fun o x => (forall f p, o = QStart f p -> x = OExc EUsage) /\ (o = QStop -> x = OExc EUsage))
+              ops (snd (run (fst (step (init Single Current) o)) ops)).
+Proof. exact failed_start_singleton_refuted. Qed.
+Print Assumptions C12_failed_start_singleton_refuted.
+
+(* Non-vacuity: concrete histories *)
+Example C12_example_lifecycle :
+  snd (run (init Single Fixed)
+        [QStart FNone true; Make 1 KObj true true; Make 1 KInst true true; Make 2 KTask false true;
+         Make 2 KTask true false; AddH true; AddH false; Call 0; Remove 1; Call 0; QStop; Call 1; QStop;
+         QStart FTcp false; QStart FNone false])
+  = [OOk; OOk; OExc EDup; OExc ECtor; OOk; OOk; OOk; OVal 1; OOk; OExc EDelivery; OOk; OExc EDelivery;
+     OExc ENoActive; OExc EOSError; OOk].
+Proof. vm_compute. reflexivity. Qed.
+
+Example C12_example_stop_state :
+  let w := fst (run (init Direct Fixed)
+                 [New; CStart FNone; Make 1 KObj true false; Make 2 KTask true false; AddH true; AddH false; CStop]) in
+  rel w = [0; 1; 2] /\ hruns w = [0; 1] /\
+  match cur w with Some c => objmap c = [] /\ cthreads c = [] /\ active c = false | None => False end.
+Proof. vm_compute. repeat split. Qed.
+
+Example C12_example_current_tree :
+  snd (run (init Single Current) [QStart FTcp false; QStart FNone false; QStop])
+  = [OExc EOSError; OExc EUsage; OExc EUsage].
+Proof. vm_compute. reflexivity. Qed.
